@@ -125,6 +125,11 @@ func c01Full(archs []wsp.Arch) func(AState) []AOp {
 			for _, age := range ages {
 				ops = append(ops, AOp{Kind: "W1", Arch: i, Ages: []int64{age}, Vals: []float64{4}})
 			}
+			// at and beyond the acceptance boundary: whether it is accepted is C03's business, but if the library
+			// writes, the write lands on a live slot of some ring - the ring model says nothing may change
+			for _, age := range []int64{rmax, rmax + 1, -1} {
+				ops = append(ops, AOp{Kind: "W1", Arch: i, Ages: []int64{age}, Vals: []float64{-2}})
+			}
 			s := int64(a.Step)
 			set := dedupAges([]int64{0, 1, s - 1, s, a.Ret() - s, a.Ret() - 1}, 0, a.Ret())
 			for n := 2; n <= 3; n++ {
